@@ -54,7 +54,7 @@ def homogeneity(repo, rep, T):
             if a.h not in (ZERO, None) and b.lit:
                 v = repo.const(fi.module, bn)
                 if v not in (0, 0.0):
-                    rep.fail("R-C10-1", fi.file, node.lineno, fi.qualname, unparse(node)[:100],
+                    rep.fail("R-C10-1", fi.file, node.lineno, fi.qualname, unparse(node)[:100], anchor=f"{fi.name}:degree-{a.h}-vs-constant-{v}", reason=
                              f"a quantity that scales like k^{a.h} with the spectrum is compared with the constant {v}: below/above "
                              "that absolute level the statistic changes character (e.g. becomes NaN), so it is not scale-invariant")
                     break
@@ -68,44 +68,54 @@ def homogeneity(repo, rep, T):
 
 
 def mod360_last(repo, rep):
+    from ..astutil import returns, resolve
     for qual in ("wavespectra.specarray.SpecArray.dm", "wavespectra.core.npstats.dm", "wavespectra.core.npstats.dpm"):
         fi = repo.func(qual)
-        # the value returned: follow the returned name to its last assignment
-        rets = [n for n in ast.walk(fi.node) if isinstance(n, ast.Return) and n.value is not None]
-        ok_all = True
-        for r in rets:
-            v = r.value
-            if unparse(v) in ("np.nan", "numpy.nan"):
-                continue
-            # strip rename / float32 wrappers
-            while True:
+        for r, v in returns(fi.node):
+            line = r.lineno
+            for _ in range(8):
                 if isinstance(v, ast.Call) and isinstance(v.func, ast.Attribute) and v.func.attr in ("rename", "astype"):
                     v = v.func.value
                 elif isinstance(v, ast.Call) and call_name(v) in ("np.float32", "np.float64", "float") and v.args:
                     v = v.args[0]
+                elif isinstance(v, ast.Name):
+                    v2 = resolve(fi.node, v, before=line + 1)
+                    if v2 is v:
+                        break
+                    v = v2
                 else:
                     break
-            if isinstance(v, ast.Name):
-                last = None
-                for n in ast.walk(fi.node):
-                    if isinstance(n, ast.Assign) and isinstance(n.targets[0], ast.Name) and n.targets[0].id == v.id and n.lineno < r.lineno:
-                        if last is None or n.lineno > last.lineno:
-                            last = n
-                v = last.value if last is not None else v
+            if unparse(v) in ("np.nan", "numpy.nan"):
+                continue
             good = isinstance(v, ast.BinOp) and isinstance(v.op, ast.Mod) and repo.const(fi.module, v.right) in (360, 360.0)
             if good:
                 rep.ok("R-C10-2", f"{fi.file}:{r.lineno} {fi.short}", unparse(v)[:80], "reduced modulo 360 as the outermost operation: result in [0, 360)")
             else:
-                ok_all = False
-                rep.fail("R-C10-2", fi.file, r.lineno, fi.qualname, unparse(r)[:100], "a direction result must be reduced modulo 360 as its last arithmetic step to lie in [0, 360)")
+                rep.fail("R-C10-2", fi.file, r.lineno, fi.qualname, unparse(v)[:100], "a direction result must be reduced modulo 360 as its last arithmetic step to lie in [0, 360)")
 
 
 def scale_by_hs(repo, rep):
     fi = repo.func("wavespectra.specarray.SpecArray.scale_by_hs")
-    t = unparse(fi.node).replace(" ", "")
-    # k = (expr / hs) ** 2 ; scaled = k * self._obj ; return scaled.where(condition, self._obj)
-    if "k=(eval(expr.lower())/hs)**2" in t and "scaled=k*self._obj" in t and "returnscaled.where(condition,self._obj)" in t:
-        rep.ok("R-C10-4", f"{fi.file}:{fi.node.lineno} scale_by_hs", "k = (expr/hs)^2; scaled.where(condition, original)", "prescribed height where the condition holds, untouched elsewhere")
+    from ..astutil import returns, resolve, factors, canon
+    ok = False
+    rets = returns(fi.node)
+    if len(rets) == 1:
+        r, v = rets[0]
+        # <scaled>.where(<condition>, self._obj)
+        if isinstance(v, ast.Call) and isinstance(v.func, ast.Attribute) and v.func.attr == "where" and len(v.args) == 2 and unparse(v.args[1]) == "self._obj":
+            scaled = resolve(fi.node, v.func.value, before=r.lineno)
+            fs = factors(scaled)
+            if len(fs) == 2 and any(unparse(f) == "self._obj" for f in fs):
+                k = resolve(fi.node, [f for f in fs if unparse(f) != "self._obj"][0], before=r.lineno)
+                # (expr / hs) ** 2 with hs = self.hs()
+                if isinstance(k, ast.BinOp) and isinstance(k.op, ast.Pow) and repo.const(fi.module, k.right) == 2 and \
+                        isinstance(k.left, ast.BinOp) and isinstance(k.left.op, ast.Div):
+                    den = resolve(fi.node, k.left.right, before=r.lineno)
+                    num = k.left.left
+                    if unparse(den) == "self.hs()" and isinstance(num, ast.Call) and call_name(num) == "eval":
+                        ok = True
+    if ok:
+        rep.ok("R-C10-4", f"{fi.file}:{fi.node.lineno} scale_by_hs", "k = (expr/hs)^2; (k * spectrum).where(condition, spectrum)", "prescribed height where the condition holds, untouched elsewhere")
     else:
         rep.fail("R-C10-4", fi.file, fi.node.lineno, fi.qualname, "scale_by_hs", "spectra must be scaled by (expr(hs)/hs)^2 where the condition holds and returned unchanged elsewhere")
     for var in ("hs", "tp", "dpm"):
@@ -118,8 +128,9 @@ def scale_by_hs(repo, rep):
                     tt = n.test
                     good = isinstance(tt, ast.BoolOp) and isinstance(tt.op, ast.Or) and len(tt.values) == 2 and \
                         all(isinstance(v, ast.Compare) and isinstance(v.ops[0], ast.NotEq) for v in tt.values)
-                    body = unparse(n).replace(" ", "")
-                    closed = f"({var}>={var}_min)&({var}<={var}_max)" in body
+                    cmps = [c for c in ast.walk(n) if isinstance(c, ast.Compare) and c is not tt and c not in list(ast.walk(tt))]
+                    got = sorted((type(c.ops[0]).__name__, unparse(c.comparators[0])) for c in cmps if len(c.ops) == 1)
+                    closed = got == sorted([("GtE", f"{var}_min"), ("LtE", f"{var}_max")])
                     if good and closed:
                         rep.ok("R-C10-4", f"{fi.file}:{n.lineno} scale_by_hs", unparse(tt), f"the {var} range joins the condition when EITHER bound is given; closed range test")
                     elif not good:
